@@ -12,8 +12,9 @@ for nin, nused, tier in ((1, 1, "quick"), (8, 3, "quick"), (9, 2, "quick"), (255
                          flags=["--max-field-sensitivity-array-size", "9000"], tier=tier,
                          desc="parse / serialize round trip, n_total/n_used/serialized_size, buffer-size negotiation for the size class n_inputs=%d, %d used" % (nin, nused), bounds="class (%d,%d), all signature bytes" % (nin, nused)))
 for kt in (1, 2, 3):
+    _tier = "quick" if kt < 3 else "thorough"
     # verify_struct_k* (harness_verify_struct in h_c11.c) is NOT registered: symbolic execution over the 8 kB proof object did not finish in 25 min in three configurations
-    QUERIES.append(Query("initialize_k%d" % kt, S, "harness_initialize", defs=["INIT", "KT=%d" % kt], unwind=270, unwindset=["secp256k1_surjectionproof_initialize.10:4", "secp256k1_surjectionproof_initialize.9:%d" % (kt + 2), "secp256k1_surjectionproof_initialize.8:9"], timeout=1500, mem_gb=16, flags=["--max-field-sensitivity-array-size", "9000"],
+    QUERIES.append(Query("initialize_k%d" % kt, S, "harness_initialize", defs=["INIT", "KT=%d" % kt], unwind=270, unwindset=["secp256k1_surjectionproof_initialize.10:4", "secp256k1_surjectionproof_initialize.9:%d" % (kt + 2), "secp256k1_surjectionproof_initialize.8:9"], timeout=2400, mem_gb=16, tier=_tier, flags=["--max-field-sensitivity-array-size", "9000"],
                          desc="surjectionproof_initialize for 1..%d inputs, every subset size, all tags incl. duplicates, <= 2 iterations: success => exactly n_to_use selected bits inside the list, reported index selected and its tag equals the output tag (32 bytes)" % kt,
                          bounds="n <= %d, <= 2 iterations, <= 6 sampler draws" % kt))
 LEVEL_TEXT = ("Bounded model checking of the real surjection-proof module: the parser is compared with a reference grammar for every byte string up to 8300 bytes with copies as exact range checks; codec round trips per size class; "
